@@ -117,6 +117,10 @@ def _raw(spec):
         lab = rng.randint(0, shape[-2], size=shape[:-2] + (1,) + shape[-1:])
         np.put_along_axis(a, lab, True, axis=-2)
         a[..., :, 0] = True
+        if spec.get('silent_frames'):
+            # frames in which no source is active at all
+            a[..., :, 1 % shape[-1]] = False
+            a[..., :, -1] = False
         if spec.get('class_off') and len(shape) > 2:
             # one source is switched off in a whole leading slice
             a[0, 0, :] = False
